@@ -101,8 +101,8 @@ theorem utf8_check_decides (s : Bytes) (h : Reader.validUtf8 s = true) : IsUtf8 
 /-- **Every result row, any column names.** The line the JSON printer emits for a row is the UTF-8
 encoding of a text derived from `object` (RFC 8259 §4) — for rows of any values (INT, finite and
 non-finite REAL, TEXT with any characters, BOOLEAN, NULL, arrays at any depth, timestamps, intervals),
-for any column names (repeated names and a column list shorter or longer than the row included: the
-theorem needs neither `Nodup` nor equal lengths). Hypotheses: column names and TEXT payloads are valid
+for any column names (repeated names and a column list shorter or longer than the row included: neither
+`Nodup` nor equal lengths is assumed). Hypotheses: column names and TEXT payloads are valid
 UTF-8 (Rust `String`s), and the text shipped for each finite REAL of the row is a JSON number (`RealTextsOk`, decidable;
 `RealTextOk o` — the same for all REALs — implies it). -/
 theorem printed_record_is_json (o : RealOracle) (cols : List Bytes) (row : List Value)
